@@ -9,6 +9,7 @@ use std::future::Future;
 use std::pin::Pin;
 use std::sync::OnceLock;
 
+pub mod chan;
 pub mod dashmap;
 pub mod inspect;
 pub mod sync;
